@@ -126,14 +126,10 @@ func findRoute(node *treeNode, path string, method string, params *Params) (info
 		} else if res, ok := node.next[path[left+1:right]]; ok {
 			node = res
 		} else if res, ok := node.next[routeParam]; ok {
-			i := len(params.V)
-			params.V = params.V[:i+1]
-			params.V[i] = path[left+1 : right]
+			params.V = append(params.V, path[left+1:right])
 			node = res
 		} else if res, ok := node.next[routeParamAny]; ok {
-			i := len(params.V)
-			params.V = params.V[:i+1]
-			params.V[i] = path[left+1:]
+			params.V = append(params.V, path[left+1:])
 			node = res
 			break
 		} else {
